@@ -17,6 +17,7 @@
 */
 
 #include "memwrapper.h"
+#include "verifhooks.h"
 #include <stdio.h>
 #include <stdlib.h>
 
@@ -54,8 +55,24 @@ void xfree(void *ptr)
   free(ptr);
 }
 
+#ifdef LIBSCIENTIFIC_VERIF
+size_t libsci_verif_nproc = 0;
+void (*libsci_verif_rng_hook)(int op, unsigned int arg, int phase) = NULL;
+void (*libsci_verif_tick)(int site) = NULL;
+void (*libsci_verif_fold_hook)(const void *gid, unsigned int seed) = NULL;
+#endif
+
 void GetNProcessor(size_t *nprocs_online, size_t *nprocs_max)
 {
+  #ifdef LIBSCIENTIFIC_VERIF
+  if(libsci_verif_nproc > 0){
+    if(nprocs_online != NULL)
+      (*nprocs_online) = libsci_verif_nproc;
+    if(nprocs_max != NULL)
+      (*nprocs_max) = libsci_verif_nproc;
+    return;
+  }
+  #endif
   if(nprocs_online != NULL)
     (*nprocs_online) = -1;
   
